@@ -46,6 +46,7 @@ static const char *DOCS[] = {
 };
 #define NDOCS 8
 
+static int patch_failed_inplace;
 static int patch_like_partial; /* a multi-step operation failed after partial success: "unchanged" is not required */
 static struct json_object *parse_doc(int i)
 {
@@ -237,6 +238,73 @@ static int op_parse_pb(struct wctx *c)
 		json_object_put(o);
 		mc_violation("wrong-failure-channel", "parse under allocation failure ended with status '%s' instead of out of memory", json_tokener_error_desc(e));
 		return R_BAD;
+	}
+	c->out = o;
+	dump_to(o, &c->res);
+	return R_OK;
+}
+/* large documents: the 3rd+ growth of the parser's array / table / token buffer */
+static char bigdoc[40000];
+static const char *big_doc(int arg)
+{
+	size_t k = 0;
+	if (arg == 0)
+	{
+		bigdoc[k++] = '[';
+		for (int i = 0; i < 300; i++)
+			k += (size_t)snprintf(bigdoc + k, sizeof bigdoc - k, "%s%d", i ? "," : "", i);
+		bigdoc[k++] = ']';
+	}
+	else if (arg == 1)
+	{
+		bigdoc[k++] = '{';
+		for (int i = 0; i < 100; i++)
+			k += (size_t)snprintf(bigdoc + k, sizeof bigdoc - k, "%s\"member%d\":[%d]", i ? "," : "", i, i);
+		bigdoc[k++] = '}';
+	}
+	else
+	{
+		bigdoc[k++] = '"';
+		for (int i = 0; i < 5000; i++)
+			bigdoc[k++] = (i % 97 == 96) ? '\\' : (char)('a' + i % 26);
+		/* every backslash above is followed by a letter: make them valid escapes */
+		for (size_t j = 1; j + 1 < k; j++)
+			if (bigdoc[j] == '\\')
+				bigdoc[j + 1] = 'n';
+		bigdoc[k++] = '"';
+	}
+	bigdoc[k] = 0;
+	return bigdoc;
+}
+static int op_parse_big(struct wctx *c)
+{
+	const char *t = big_doc(c->arg % 3);
+	struct json_tokener *tok = json_tokener_new();
+	if (!tok)
+		return R_FAIL;
+	struct json_object *o = json_tokener_parse_ex(tok, t, (int)strlen(t) + 1);
+	enum json_tokener_error e = json_tokener_get_error(tok);
+	json_tokener_free(tok);
+	if (e == json_tokener_error_memory)
+	{
+		json_object_put(o);
+		return R_FAIL;
+	}
+	if (e != json_tokener_success)
+	{
+		json_object_put(o);
+		mc_violation("wrong-failure-channel", "parse under allocation failure ended with status '%s' instead of out of memory", json_tokener_error_desc(e));
+		return R_BAD;
+	}
+	if (c->arg >= 3)
+	{
+		/* ... and its deep copy */
+		struct json_object *cp = NULL;
+		int rc = json_object_deep_copy(o, &cp, NULL);
+		json_object_put(o);
+		if (rc)
+			return R_FAIL;
+		o = cp;
 	}
 	c->out = o;
 	dump_to(o, &c->res);
@@ -437,6 +505,70 @@ static int op_pointer(struct wctx *c)
 	dump_to(c->pre, &c->res);
 	return R_OK;
 }
+/* long member names (beyond typical 128-byte stack buffers) through pointer set and patch add,
+ * also into an object that must grow its table for the new member */
+static char longkey_ptr[600], longkey_patch[900];
+static void setup_longkey(struct wctx *c)
+{
+	char key[320];
+	int kl = (c->arg & 1) ? 300 : 129;
+	memset(key, 'K', (size_t)kl);
+	key[5] = '~';
+	key[kl] = 0;
+	c->pre = json_object_new_object();
+	int members = (c->arg & 2) ? 10 : 2;
+	for (int i = 0; i < members; i++)
+	{
+		char k[8];
+		snprintf(k, sizeof k, "m%d", i);
+		json_object_object_add(c->pre, k, json_object_new_int(i));
+	}
+	/* pointer: '~' escaped as ~0 */
+	size_t n = 0;
+	longkey_ptr[n++] = '/';
+	for (int i = 0; i < kl; i++)
+	{
+		if (key[i] == '~')
+		{
+			longkey_ptr[n++] = '~';
+			longkey_ptr[n++] = '0';
+		}
+		else
+			longkey_ptr[n++] = key[i];
+	}
+	longkey_ptr[n] = 0;
+	snprintf(longkey_patch, sizeof longkey_patch, "[{\"op\":\"add\",\"path\":\"%s\",\"value\":[1,2]}]", longkey_ptr);
+	if (c->arg & 4)
+		c->pre2 = json_tokener_parse(longkey_patch);
+	else
+	{
+		c->val = json_object_new_string("the value");
+		c->val_owned = 1;
+	}
+}
+static int op_longkey(struct wctx *c)
+{
+	int rc;
+	if (c->arg & 4)
+	{
+		struct json_patch_error pe;
+		rc = json_patch_apply(NULL, c->pre2, &c->pre, &pe);
+		if (rc)
+		{
+			patch_failed_inplace = 1;
+			return R_FAIL;
+		}
+	}
+	else
+	{
+		rc = json_pointer_set(&c->pre, longkey_ptr, c->val);
+		if (rc)
+			return R_FAIL;
+		c->val_owned = 0;
+	}
+	dump_to(c->pre, &c->res);
+	return R_OK;
+}
 static const char *PATCHES[] = {
     "[{\"op\":\"add\",\"path\":\"/a/new\",\"value\":{\"deep\":[1,2,3]}}]",
     "[{\"op\":\"remove\",\"path\":\"/a/b/0\"}]",
@@ -452,7 +584,6 @@ static void setup_patch(struct wctx *c)
 	c->pre = json_tokener_parse("{\"a\":{\"b\":[1,2,{\"c\":null}]},\"x/y\":5}");
 	c->pre2 = json_tokener_parse(PATCHES[c->arg % NPATCH]);
 }
-static int patch_failed_inplace;
 static int op_patch(struct wctx *c)
 {
 	int inplace = c->arg >= NPATCH;
@@ -621,6 +752,11 @@ static const struct wl WL_STATIC[] = {
     W("parse_ex comments", "parse", setup_none, op_parse, 6),
     W("parse_ex mixed", "parse", setup_none, op_parse, 7),
     W("json_tokener_parse mixed", "parse", setup_none, op_parse_simple, 7),
+    W("parse 300-element array", "parse", setup_none, op_parse_big, 0),
+    W("parse 100-member object", "parse", setup_none, op_parse_big, 1),
+    W("parse 5000-byte string with escapes", "parse", setup_none, op_parse_big, 2),
+    W("parse + deep copy 300-element array", "copy", setup_none, op_parse_big, 3),
+    W("parse + deep copy 100-member object", "copy", setup_none, op_parse_big, 4),
     W("parse, memory error, reset, parse again (34 elements)", "parse", setup_none, op_parse_retry, 1),
     W("parse, memory error, reset, parse again (12 members)", "parse", setup_none, op_parse_retry, 2),
     W("parse, memory error, reset, parse again (mixed)", "parse", setup_none, op_parse_retry, 7),
@@ -665,6 +801,12 @@ static const struct wl WL_STATIC[] = {
     W("pointer_setf beyond array end", "pointer", setup_ptr, op_pointer, 3),
     W("pointer_set escaped key", "pointer", setup_ptr, op_pointer, 4),
     W("pointer_set append", "pointer", setup_ptr, op_pointer, 5),
+    W("pointer_set 129-byte member name", "pointer", setup_longkey, op_longkey, 0),
+    W("pointer_set 300-byte member name", "pointer", setup_longkey, op_longkey, 1),
+    W("pointer_set 129-byte name, table growth", "pointer", setup_longkey, op_longkey, 2),
+    W("pointer_set 300-byte name, table growth", "pointer", setup_longkey, op_longkey, 3),
+    W("patch add 129-byte member name", "patch", setup_longkey, op_longkey, 4),
+    W("patch add 300-byte name, table growth", "patch", setup_longkey, op_longkey, 7),
     W("patch add (copy_from)", "patch", setup_patch, op_patch, 0),
     W("patch remove (copy_from)", "patch", setup_patch, op_patch, 1),
     W("patch replace (copy_from)", "patch", setup_patch, op_patch, 2),
